@@ -10,6 +10,7 @@ Three comparisons per op file:
 """
 import hashlib
 import os
+import random
 from concurrent.futures import ThreadPoolExecutor
 
 import pv
@@ -325,6 +326,27 @@ def run(chk):
             for n in boundaries(B):                  # the boundary lengths again, different chunkings
                 for _ in range(4 * reps):
                     cases.append(gen_case(rng, chk, alg, B, hl, n))
+        # the carry of the 32-bit byte counter (`if (ctx->len_low < (puint32) len) ++ctx->len_high;`) is only executed by a message
+        # of 2^32 bytes or more in at least two updates: started here, on the uninstrumented -O2 build, so that it runs beside the
+        # campaigns below; implementation vs hashlib only (the model side of that path is the thorough tier's and the theorems')
+        carry_ex = carry_futs = None
+        if fname in COUNTER_ALGS:
+            try:
+                fast = pv.build_harness("hash", cfg, ["hash.c"], san="plain", opt="-O2")
+            except pv.BuildError:
+                fast = exe
+            ffam = HashFamily(fname, fast, timeout=1800)
+            crng = random.Random("C11-carry-%d" % chk.seed)
+            carry = []
+            for a in COUNTER_ALGS[fname]:
+                k, j = crng.randrange(1, 200), crng.randrange(0, 200)
+                # len_low: 1 -> 2^31+1+k -> wraps to 1+k+j with len_high = 1; reset must forget both words
+                carry.append(["new " + a, "upd 61", "updz %d" % ((1 << 31) + k), "updz %d" % ((1 << 31) + j), "str", "reset", "upd 616263", "str"])
+                if thorough:
+                    # carry and a non-zero high half of the length in the same update: len_high = 2
+                    carry.append(["new " + a, "updz %d" % ((1 << 31) + k), "updz %d" % ((1 << 32) + (1 << 31) + j), "str"])
+            carry_ex = ThreadPoolExecutor(max(1, min(len(carry), pv.NCPU // 2)))
+            carry_futs = [carry_ex.submit(oracle_judge, ffam, c) for c in carry]
         api_algs = [(a, B, hashlib.new(hn).digest_size) for a, hn, B in algs]
         cases += A.cases(rng, chk, api_algs, thorough, exh_algs=[x for x in api_algs if x[0] in ("md5", "sha1", "sha256", "sha512")])
         longs = []
@@ -345,11 +367,6 @@ def run(chk):
         # the bit-length words: from 2^29 bytes on `len_low >> 29` is non-zero in finish(); from 2^32 - 2^29 on its three
         # bits are all set.  Implementation (uninstrumented -O2 build) vs hashlib only; reset afterwards must forget it.
         if fname in COUNTER_ALGS and not found:
-            try:
-                fast = pv.build_harness("hash", cfg, ["hash.c"], san="plain", opt="-O2")
-            except pv.BuildError:
-                fast = exe
-            ffam = HashFamily(fname, fast, timeout=900)
             probes = []
             for a in COUNTER_ALGS[fname]:
                 k = rng.randrange(1, 200)
@@ -369,6 +386,17 @@ def run(chk):
                         found = True
                 else:
                     chk.cov["oracle_hashlib_cases"] = chk.cov.get("oracle_hashlib_cases", 0) + 1
+        if carry_futs is not None:
+            for c, fut in zip(carry, carry_futs):
+                r = fut.result()
+                chk.count("\n".join(c))
+                chk.bump("message>=2^32-bytes-counter-carry")
+                if r is not None:
+                    if not found and chk.violation("\n".join(c) + "\n", "C11 %s hashlib oracle: %s" % (fname, r["detail"])):
+                        found = True
+                else:
+                    chk.cov["oracle_hashlib_cases"] = chk.cov.get("oracle_hashlib_cases", 0) + 1
+            carry_ex.shutdown()
         # >= 2^32 bytes in one update.  Thorough tier; also whenever the proof stage is broken
         # (the search of DESIGN §2.4: the translator rejecting the update shape points here).
         bigs = BIG_ALGS.get(fname, [])
@@ -413,7 +441,8 @@ def run(chk):
                        "(newt: valid, invalid), get_type, free / re-create, NULL data / NULL buffer / NULL length / NULL hash, unaligned input (updo1..7), "
                        "too-small buffers after the read, output-buffer canary, random histories over all ops, every history of at most 3 (thorough 4) ops over "
                        "{1, B-1, B bytes, reset, str, dig, too-small dig} for md5/sha1/sha256/sha512/sha3-256/gost, objects used by 2..8 threads at once (par); "
-                       "messages of 2^29+k bytes (len_low >> 29 non-zero; then reset) against hashlib on an -O2 build; "
+                       "messages of 2^29+k bytes (len_low >> 29 non-zero; then reset) and of 2^32+k bytes in two updates (carry of the 32-bit byte counter into len_high; then reset) "
+                       "for md5/sha1/sha256 against hashlib on an -O2 build; "
                        "thorough: one update of 2^32+5 bytes vs the same bytes in smaller updates, 2^32-2^29+k bytes, sha512/sha384 single updates >= 2^32. Every op file is judged three ways: "
                        "implementation vs model, vs the Lean one-shot spec, vs Python hashlib. Distinct by op-file hash; non-trivial = more than one op")
     chk.cov["exhaustive"] = False
